@@ -331,6 +331,13 @@ let () =
             Printf.printf "j %d %d %d %d %d %d\n" k (if dag then 1 else 0) (int_of_nat mask) (int_of_nat cnt)
               (if allsat then 1 else 0) (if same then 1 else 0)
           end;
+          (* the invariants of Vpsc/StaticRefB.v on every split of refine(): line "r k dag sat_ok ref_ok mask nsplits allsat same" *)
+          if n <= 40 && is_solve then begin
+            let dag = is_dag (base s0) in
+            let (((((sat_ok, ref_ok), mask), ns), allsat), same) = refine_chk s0 in
+            Printf.printf "r %d %d %d %d %d %d %d %d\n" k (if dag then 1 else 0) (if sat_ok then 1 else 0) (if ref_ok then 1 else 0)
+              (int_of_nat mask) (int_of_nat ns) (if allsat then 1 else 0) (if same then 1 else 0)
+          end;
           let (r, tie_at_end) = if is_solve then static_solve_t s0 else static_satisfy_t s0 in
           (match r with
            | Ok s' ->
